@@ -1285,7 +1285,7 @@ func (s *scenario) names() []string {
 }
 
 // run executes one scenario: requests, then mem / file (/ reopen) dumps.
-func (x *e2eRunner) run(s *scenario, reopen bool) error {
+func (x *e2eRunner) run(s *scenario, reopen, reopenFirst bool) error {
 	c := x.c
 	want := expect(s)
 	var statuses []string
@@ -1328,6 +1328,13 @@ func (x *e2eRunner) run(s *scenario, reopen bool) error {
 		}
 	}
 	stage(s.op(), "memtable")
+	if reopenFirst {
+		// close and open again before anything was flushed by the harness (shutdown flush / WAL)
+		if err := x.e.reopen(); err != nil {
+			return err
+		}
+		stage("again restart", "after restart")
+	}
 	x.e.sh.Flush()
 	stage("again file", "after flush")
 	if reopen {
@@ -1377,7 +1384,7 @@ func runE2E(c *hx.Ctx, r *hx.Rng, n int) error {
 		if only > 0 && x.uniq != only {
 			continue
 		}
-		if err := x.run(s, i%25 == 24 || only > 0); err != nil {
+		if err := x.run(s, i%25 == 24 || only > 0, i%25 == 12); err != nil {
 			return err
 		}
 	}
